@@ -154,6 +154,9 @@ func TestC18(t *testing.T) {
 					return
 				}
 				probe := gen.Neighbor(rt, e, base, "probe")
+				if gen.Chance(rt, "probeIsBase", 1, 3) {
+					probe = base
+				}
 				kc := known.Case{Check: "range", Eco: e.Name, Inputs: []string{ri.Text, lp, rp, probe}}
 				if r.check(rt, kc) && lp+rp != "" {
 					r.ev.NonTrivial(e.Name+"/range-padded/"+ri.Kind, func() any { return kc.Inputs }, kc.Key()...)
